@@ -300,6 +300,14 @@ func typesUpTo(depth int) []*Ty {
 	add(l0)
 	if depth >= 1 {
 		add(applyAll(l0, mapKeys(), true))
+		// every comparable leaf as a map key (sorted-key walks branch per key kind)
+		var extra []*Ty
+		for _, k := range l0 {
+			if k.Comparable && !k.has("user") {
+				extra = append(extra, mapOf(k, basicTy("int")), mapOf(k, sliceOf(basicTy("string"))))
+			}
+		}
+		add(extra)
 	}
 	if depth >= 2 {
 		r0 := leaves(repBasics)
